@@ -83,3 +83,33 @@ def emit_spirv_header(hdr, namespace, path, note):
         mnames.append(f"mask_{n}")
     f.list_def("masks", "MaskSpec", mnames)
     return write_if_changed(path, f.text())
+
+
+QUANT = {"One": 0, "ZeroOrOne": 1, "ZeroOrMore": 2}
+
+
+def _entry(r, opcode, kinds):
+    caps = "[" + ", ".join(nc(c) for c in r["caps"]) + "]"
+    exts = "[" + ", ".join(nc(c) for c in r["exts"]) + "]"
+    ops = "[" + ", ".join(f"({kinds.index(k)}, {QUANT[q]})" for k, q in r["ops"]) + "]"
+    return f"⟨{nc(r['name'])}, {opcode}, {caps}, {exts}, {ops}⟩"
+
+
+def emit_grammar(kinds, core, glsl, opencl, op_values, namespace, path, note):
+    """op_values: dict Op variant/alias name -> number (resolution of `spirv::Op::$op`, re-checked in Lean
+    against the spirv::Op declaration by a linear table check)."""
+    f = LeanFile(namespace, ["Rspirv.Generic.Table"], note)
+    f.raw("open Rspirv")
+    f.list_def("kinds", "Nat", [nc(k) for k in kinds])
+    for k in kinds:
+        f.raw(f"def kind_{k} : Nat := {kinds.index(k)}")
+    f.list_def("coreTable", "Entry", [_entry(r, op_values[r["name"]], kinds) for r in core])
+    f.list_def("glslTable", "Entry", [_entry(r, r["opcode"], kinds) for r in glsl])
+    f.list_def("openclTable", "Entry", [_entry(r, r["opcode"], kinds) for r in opencl])
+    return write_if_changed(path, f.text())
+
+
+def emit_extracted(ext, namespace, path, note):
+    f = LeanFile(namespace, [], note)
+    f.list_def("reflectTable", "Nat × Nat", [f"({o}, {int(b[::-1], 2)})" for o, b in ext["reflect"]])
+    return write_if_changed(path, f.text())
